@@ -183,6 +183,11 @@ theorem facts_unify :
     C07Facts.intVarRejectsArgs = true ∧ C07Facts.floatVarPred = .isFloat ∧
     C07Facts.floatVarRejectsArgs = true ∧ C07Facts.intVarsYesPriority = true := by decide
 
+/-- `unify_inner` has no arm that lets `!` unify with an arbitrary type (the
+    repaired checker accepts a FOUND `!` for any expected type in `unify`, and
+    nothing else) -/
+theorem fact_no_never_arm : C07Facts.unifyInnerNeverArm = false := by decide
+
 
 theorem slot_tv {d : Defs} {K : Nat → Kind} {D : Nat → Bool} {v : Nat} {t : MTy}
     (hk : K v = .tv) (ht : tyOk K t = true) : SlotOk d K D v t := by
@@ -323,24 +328,28 @@ theorem plan_ok {d : Defs} {K : Nat → Kind} {D : Nat → Bool} {s : Store}
     (hra : ∀ r, a.varIndex = some r → s[r]? = some a ∧ SlotOk d K D r a)
     (hrb : ∀ r, b.varIndex = some r → s[r]? = some b ∧ SlotOk d K D r b) :
     PlanOk d K D (plan d s occ a b) := by
+  have hnever := fact_no_never_arm
   unfold plan
   split
   · trivial
   · cases a with
     | var v =>
       have hk := kind_of_tyOk_var ha
-      cases b <;> simp only [planArms] <;> first | trivial | exact plan_var hk hb
-    | explicitVar e => cases b <;> simp only [planArms] <;> trivial
-    | never => cases b <;> simp only [planArms] <;> trivial
+      cases b <;> simp only [planArms, planArmsWith, hnever, Bool.false_eq_true, ↓reduceIte, planCore] <;> first | trivial | exact plan_var hk hb
+    | explicitVar e => cases b <;> simp only [planArms, planArmsWith, hnever, Bool.false_eq_true, ↓reduceIte, planCore] <;> trivial
+    | never =>
+      cases b with
+      | var w => simp only [planArms, planArmsWith, hnever, Bool.false_eq_true, ↓reduceIte, planCore]; exact plan_var (kind_of_tyOk_var hb) ha
+      | _ => simp only [planArms, planArmsWith, hnever, Bool.false_eq_true, ↓reduceIte, planCore]; trivial
     | unit =>
       cases b with
-      | var w => simp only [planArms]; exact plan_var (kind_of_tyOk_var hb) ha
-      | _ => simp only [planArms]; trivial
+      | var w => simp only [planArms, planArmsWith, hnever, Bool.false_eq_true, ↓reduceIte, planCore]; exact plan_var (kind_of_tyOk_var hb) ha
+      | _ => simp only [planArms, planArmsWith, hnever, Bool.false_eq_true, ↓reduceIte, planCore]; trivial
     | intVar v sg =>
       cases b with
-      | var w => simp only [planArms]; exact plan_var (kind_of_tyOk_var hb) ha
+      | var w => simp only [planArms, planArmsWith, hnever, Bool.false_eq_true, ↓reduceIte, planCore]; exact plan_var (kind_of_tyOk_var hb) ha
       | intVar w sg' =>
-        simp only [planArms]
+        simp only [planArms, planArmsWith, hnever, Bool.false_eq_true, ↓reduceIte, planCore]
         have hkv := kind_of_tyOk_int ha
         have hkw := kind_of_tyOk_int hb
         have hDv := root_flag (hra v rfl).2 hkv
@@ -368,25 +377,25 @@ theorem plan_ok {d : Defs} {K : Nat → Kind} {D : Nat → Bool} {s : Store}
             cases sg' with
             | true => rfl
             | false => simp at hc
-      | name n args => simp only [planArms]; exact plan_int_name ha hb (hra v rfl)
-      | _ => simp only [planArms]; trivial
+      | name n args => simp only [planArms, planArmsWith, hnever, Bool.false_eq_true, ↓reduceIte, planCore]; exact plan_int_name ha hb (hra v rfl)
+      | _ => simp only [planArms, planArmsWith, hnever, Bool.false_eq_true, ↓reduceIte, planCore]; trivial
     | floatVar v =>
       cases b with
-      | var w => simp only [planArms]; exact plan_var (kind_of_tyOk_var hb) ha
+      | var w => simp only [planArms, planArmsWith, hnever, Bool.false_eq_true, ↓reduceIte, planCore]; exact plan_var (kind_of_tyOk_var hb) ha
       | floatVar w =>
-        simp only [planArms]
+        simp only [planArms, planArmsWith, hnever, Bool.false_eq_true, ↓reduceIte, planCore]
         refine ⟨hb, ?_⟩
         rw [kind_of_tyOk_float ha]
         exact Or.inl ⟨w, rfl⟩
-      | name n args => simp only [planArms]; exact plan_float_name ha hb
-      | _ => simp only [planArms]; trivial
+      | name n args => simp only [planArms, planArmsWith, hnever, Bool.false_eq_true, ↓reduceIte, planCore]; exact plan_float_name ha hb
+      | _ => simp only [planArms, planArmsWith, hnever, Bool.false_eq_true, ↓reduceIte, planCore]; trivial
     | recordVar v fs =>
       obtain ⟨⟨N, hk⟩, hfs⟩ := kind_of_tyOk_rec ha
       have hNa := root_fields (hra v rfl).2 hk
       cases b with
-      | var w => simp only [planArms]; exact plan_var (kind_of_tyOk_var hb) ha
+      | var w => simp only [planArms, planArmsWith, hnever, Bool.false_eq_true, ↓reduceIte, planCore]; exact plan_var (kind_of_tyOk_var hb) ha
       | recordVar w gs =>
-        simp only [planArms]
+        simp only [planArms, planArmsWith, hnever, Bool.false_eq_true, ↓reduceIte, planCore]
         obtain ⟨⟨M, hkw⟩, hgs⟩ := kind_of_tyOk_rec hb
         have hMb := root_fields (hrb w rfl).2 hkw
         refine ⟨hfs, hgs, fun hp => slot_rv hk hb (Or.inl ⟨w, gs, rfl, ?_⟩)⟩
@@ -394,39 +403,39 @@ theorem plan_ok {d : Defs} {K : Nat → Kind} {D : Nat → Bool} {s : Store}
         · subst hwv; rw [if_pos rfl]; exact hp.symm.trans hNa
         · rw [if_neg hwv]; exact ⟨M, hkw, hMb.symm.trans (hp.symm.trans hNa)⟩
       | record gs =>
-        simp only [planArms]
+        simp only [planArms, planArmsWith, hnever, Bool.false_eq_true, ↓reduceIte, planCore]
         exact ⟨hfs, by simpa [tyOk] using hb, fun hp => slot_rv hk hb (Or.inr (Or.inl ⟨gs, rfl, hp.symm.trans hNa⟩))⟩
       | name n args =>
-        simp only [planArms]
+        simp only [planArms, planArmsWith, hnever, Bool.false_eq_true, ↓reduceIte, planCore]
         cases hr : d.recordFields n with
         | none => trivial
         | some nfs =>
           exact ⟨hfs, hd n nfs hr, fun hp => slot_rv hk hb (Or.inr (Or.inr ⟨n, args, nfs, rfl, hr, hp.symm.trans hNa⟩))⟩
-      | _ => simp only [planArms]; trivial
+      | _ => simp only [planArms, planArmsWith, hnever, Bool.false_eq_true, ↓reduceIte, planCore]; trivial
     | record fs =>
       cases b with
-      | var w => simp only [planArms]; exact plan_var (kind_of_tyOk_var hb) ha
+      | var w => simp only [planArms, planArmsWith, hnever, Bool.false_eq_true, ↓reduceIte, planCore]; exact plan_var (kind_of_tyOk_var hb) ha
       | recordVar w gs =>
-        simp only [planArms]
+        simp only [planArms, planArmsWith, hnever, Bool.false_eq_true, ↓reduceIte, planCore]
         obtain ⟨⟨M, hk⟩, hgs⟩ := kind_of_tyOk_rec hb
         have hMb := root_fields (hrb w rfl).2 hk
         exact ⟨by simpa [tyOk] using ha, hgs, fun hp => slot_rv hk ha (Or.inr (Or.inl ⟨fs, rfl, hp.trans hMb⟩))⟩
-      | _ => simp only [planArms]; trivial
+      | _ => simp only [planArms, planArmsWith, hnever, Bool.false_eq_true, ↓reduceIte, planCore]; trivial
     | func ps r =>
       cases b with
-      | var w => simp only [planArms]; exact plan_var (kind_of_tyOk_var hb) ha
+      | var w => simp only [planArms, planArmsWith, hnever, Bool.false_eq_true, ↓reduceIte, planCore]; exact plan_var (kind_of_tyOk_var hb) ha
       | func qs q =>
-        simp only [planArms]
+        simp only [planArms, planArmsWith, hnever, Bool.false_eq_true, ↓reduceIte, planCore]
         simp only [tyOk, Bool.and_eq_true] at ha hb
         exact ⟨ha.1, hb.1, ha.2, hb.2⟩
-      | _ => simp only [planArms]; trivial
+      | _ => simp only [planArms, planArmsWith, hnever, Bool.false_eq_true, ↓reduceIte, planCore]; trivial
     | name n args =>
       cases b with
-      | var w => simp only [planArms]; exact plan_var (kind_of_tyOk_var hb) ha
-      | intVar w sg => simp only [planArms]; exact plan_int_name hb ha (hrb w rfl)
-      | floatVar w => simp only [planArms]; exact plan_float_name hb ha
+      | var w => simp only [planArms, planArmsWith, hnever, Bool.false_eq_true, ↓reduceIte, planCore]; exact plan_var (kind_of_tyOk_var hb) ha
+      | intVar w sg => simp only [planArms, planArmsWith, hnever, Bool.false_eq_true, ↓reduceIte, planCore]; exact plan_int_name hb ha (hrb w rfl)
+      | floatVar w => simp only [planArms, planArmsWith, hnever, Bool.false_eq_true, ↓reduceIte, planCore]; exact plan_float_name hb ha
       | recordVar w gs =>
-        simp only [planArms]
+        simp only [planArms, planArmsWith, hnever, Bool.false_eq_true, ↓reduceIte, planCore]
         obtain ⟨⟨M, hk⟩, hgs⟩ := kind_of_tyOk_rec hb
         have hMb := root_fields (hrb w rfl).2 hk
         cases hr : d.recordFields n with
@@ -434,12 +443,12 @@ theorem plan_ok {d : Defs} {K : Nat → Kind} {D : Nat → Bool} {s : Store}
         | some nfs =>
           exact ⟨hgs, hd n nfs hr, fun hp => slot_rv hk ha (Or.inr (Or.inr ⟨n, args, nfs, rfl, hr, hp.symm.trans hMb⟩))⟩
       | name m args' =>
-        simp only [planArms]
+        simp only [planArms, planArmsWith, hnever, Bool.false_eq_true, ↓reduceIte, planCore]
         split
         · trivial
         · simp only [tyOk] at ha hb
           exact ⟨ha, hb⟩
-      | _ => simp only [planArms]; trivial
+      | _ => simp only [planArms, planArmsWith, hnever, Bool.false_eq_true, ↓reduceIte, planCore]; trivial
 
 theorem takeField_perm {n : Nat} : ∀ {fs : List (Nat × MTy)} {t : MTy} {rest : List (Nat × MTy)},
     takeField n fs = some (t, rest) → (fnames fs).Perm (n :: fnames rest) := by
